@@ -3,7 +3,7 @@
 P=$1; K=$2; shift 2
 cd /verif
 CONF=$(tools/seed_confirm.sh $P $K 2>&1 | tail -5)
-RES=$(timeout 3000 tools/seed_test.sh /tmp/seed-out-$P/$K/patch.diff ${TIER:-quick} "$@" 2>&1 | cut -c1-600)
+RES=$(timeout 3000 tools/seed_test.sh /tmp/seed-out-$P/$K/patch.diff ${TIER:-quick} "$@" 2>&1 | cut -c1-900)
 echo "$CONF" | tail -2
 echo "$RES"
 tools/seed_archive.py $P $K "$P-seed$K" "$*" "$RES" "$CONF"
